@@ -273,6 +273,9 @@ class Engine(object):
             try: self.orm.rollback()
             except Exception: pass
             self._reset_after_rollback()
+            # a loud failure of a plain lookup (not judged): the program gives up here - what the session and the
+            # database look like after such an error is not something the reference model follows
+            self.diverged = 'lookup raised %s' % type(e).__name__
             raise HarnessSkip('obtain raised')
         if p is None:
             self.report('read', 'missing_object', {'oid': oid, 'ent': o.ent, 'pk': [repr(x) for x in pk], 'via': via})
